@@ -38,12 +38,26 @@ def run(ctx):
         inputs = {k: {"dtype": c["inputs"][k]["dtype"], "sig": rnd.choice([c["inputs"][k]["shape"], ops.symbolic_sig(rnd, c["inputs"][k]["shape"])])} for k in lazy}
         consts = {k: c["inputs"][k] for k in names if k not in lazy}
         progs.append({"program": c["impl"], "inputs": inputs, "constants": consts})
+    # library functions keyed by Python collections (items / mappings given as lists, dicts): the exported attributes
+    # must not depend on the interpreter's per-process hash seed
+    KEYED = ["out = nda.isin(s, ['foo', 'bar', 'baz', 'qux', 'quux', 'corge'])", "out = nda.isin(s, ['b', 'a'])",
+             "out = nda.static_map(s, {'a': 1, 'bb': 2, 'ccc': 3, 'd': 4}, default=0)", "out = nda.isin(a, [3, 1, 2, 7])",
+             "out = nda.static_map(a, {1: 'x', 2: 'y', 5: 'z'}, default='?')", "out = nda.isin(s, ['x']) | nda.isin(s, ['y', 'z', 'w'])",
+             "out = nda.static_map(s, {'k%d' % i: float(i) for i in range(12)}, default=-1.0)"]
+    for kp in KEYED:
+        progs.append({"program": kp, "inputs": {"s": {"dtype": "utf8", "sig": ["N"]}, "a": {"dtype": "int64", "sig": ["N"]}}, "constants": {}})
+    n = len(progs)
     # baseline: every program first in the life of a fresh process
-    base = {}
+    base, other = {}, {}
     for k in range(0, n, 14):
         batch = [dict(p, id=f"base-{k + j}", history=[]) for j, p in enumerate(progs[k:k + 14])]
-        r = core.run_cases("harness.h_det", batch, workers=14, per_case_timeout=120)
+        r = core.run_cases("harness.h_det", batch, workers=14, per_case_timeout=120, extra_env={"PYTHONHASHSEED": "1"})
         base.update(r)
+        # the same, in fresh processes with other hash seeds
+        for hs in ("2", "3"):
+            r2 = core.run_cases("harness.h_det", batch, workers=14, per_case_timeout=120, extra_env={"PYTHONHASHSEED": hs})
+            for kk, vv in r2.items():
+                other.setdefault(kk, []).append((hs, vv))
     # after histories (and after one another, inside long-lived workers)
     hist_cases = []
     reps = 5 if ctx.tier == "quick" else 20
@@ -52,7 +66,7 @@ def run(ctx):
             h = [rnd.choice(HISTORY) for _ in range(rnd.randint(1, 6))]
             hist_cases.append(dict(p, id=f"hist-{i}-{j}", history=h, prog_index=i))
     rnd.shuffle(hist_cases)
-    hres = core.run_cases("harness.h_det", hist_cases, workers=8, per_case_timeout=180)
+    hres = core.run_cases("harness.h_det", hist_cases, workers=8, per_case_timeout=180, extra_env={"PYTHONHASHSEED": "4"})
     raw_same = raw_diff = 0
     for i, p in enumerate(progs):
         b = base.get(f"base-{i}") or {}
@@ -65,6 +79,9 @@ def run(ctx):
                            ("consts_unchanged", "library constants pi/e/inf/nan changed"), ("pool_unchanged", "reading/exporting changed a data-holding array")):
             if not bo[flag]:
                 ctx.finding(dict(attrs, kind=flag), f"`{p['program'][:100]}`: {what}", {"program": p, "outcome": bo})
+        for hs, r2 in other.get(f"base-{i}", []):
+            if "ok" in r2 and r2["ok"]["canon"] != bo["canon"]:
+                ctx.finding(dict(attrs, kind="process-dependent"), f"`{p['program'][:100]}`: the export differs between two fresh processes (PYTHONHASHSEED=1 vs {hs}): canonical graphs differ", {"program": p, "hash_seeds": ["1", hs]})
         for c in hist_cases:
             if c["prog_index"] != i:
                 continue
